@@ -39,6 +39,7 @@ RULE = (
     "1/8 outside the reference element); non-trivial = at least one point is not a node. hermite_phys: "
     "Hypothesis draws order, origin, direction, 1-3 element lengths and an integer cubic; non-trivial = cubic "
     "of degree>=2. distinct = sha1 of the serialised case."
+    ' beam_interpolation: generated Euler-Bernoulli members (2D/3D, inclined, graded), Get_beam_N_e_pg applied to the nodal values and slopes of cubic v, w and linear u, rx (non-trivial = a quadratic or cubic term).'
 )
 ASSUMPTIONS = [
     "the exact rational polynomial ring of vlib/c06_poly.py (+,-,*,/scalar,int powers, formal derivative) is the trusted base",
